@@ -295,12 +295,30 @@ func ElNe(a, b interface{}, opts ...FuncOpt) (retVal Tensor, err error) {
 		eleqer, ok = at.Engine().(ElEqer)
 		switch bt := b.(type) {
 		case Tensor:
-			if !ok {
-				if eleqer, ok = bt.Engine().(ElEqer); !ok {
-					return nil, errors.Errorf("Neither operands have engines that support ElEq")
+			if !bt.Shape().IsScalar() && !at.Shape().IsScalar() { // non-scalar Tensor comparison
+				if !ok {
+					if eleqer, ok = bt.Engine().(ElEqer); !ok {
+						return nil, errors.Errorf("Neither operands have engines that support ElEq")
+					}
 				}
+				return eleqer.ElNe(at, bt, opts...)
+			} else {
+				var leftTensor bool
+				if !bt.Shape().IsScalar() {
+					leftTensor = false // a Scalar-Tensor * b Tensor
+					tmp := at
+					at = bt
+					bt = tmp
+				} else {
+					leftTensor = true // a Tensor * b Scalar-Tensor
+				}
+
+				if !ok {
+					return nil, errors.Errorf("Engine does not support ElEq")
+				}
+				return eleqer.NeScalar(at, bt, leftTensor, opts...)
 			}
-			return eleqer.ElNe(at, bt, opts...)
+
 		default:
 			if !ok {
 				return nil, errors.Errorf("Engine does not support ElEq")
